@@ -160,8 +160,12 @@ def pair_expectations(sensors, data):
     return out
 
 
-def derived_expectations(dev, family, sensors, goodwe_const):
-    """id -> expected (exact value | Approx | str) for label/bitmap/calculated sensors, from the registers."""
+def derived_expectations(dev, family, sensors, goodwe_const, alts=None):
+    """id -> expected (exact value | Approx | str) for label/bitmap/calculated sensors, from the registers.
+    Totals are the sum of the parts PRESENT in the result ('ppv = sum of ppvN'); `alts` receives, per id, the value a
+    total has when the registers of strings the model does not have (their ppvN are not listed) are added as well."""
+    if alts is None:
+        alts = {}
     def rb(addr, n):
         return reg_bytes(dev, family, addr, n)
     ids = {sn.id_: sn for sn in sensors}
@@ -187,9 +191,13 @@ def derived_expectations(dev, family, sensors, goodwe_const):
             if labels is not None and lo_off is not None:
                 exp[sn.id_] = R.bitmap22(rb(sn.offset, 2), rb(lo_off, 2), labels)
     if family == "ET":
-        p = [_u4z(rb(a, 4)) for a in (35105, 35109, 35113, 35117)]
+        p_all = [_u4z(rb(a, 4)) for a in (35105, 35109, 35113, 35117)]
+        p = [x for i, x in enumerate(p_all) if f"ppv{i + 1}" in ids]
+        hidden = len(p) < len(p_all)
         if "ppv" in ids:
             exp["ppv"] = sum(p)
+            if hidden:
+                alts["ppv"] = (sum(p_all), "hidden-strings")
         ap = R.s(rb(35140, 2))
         if "grid_in_out" in ids:
             exp["grid_in_out"] = grid_mode(ap)
@@ -197,6 +205,8 @@ def derived_expectations(dev, family, sensors, goodwe_const):
             exp["grid_in_out_label"] = goodwe_const.GRID_IN_OUT_MODES.get(grid_mode(ap))
         if "house_consumption" in ids:
             exp["house_consumption"] = sum(p) + R.s(rb(35182, 4)) - ap
+            if hidden:
+                alts["house_consumption"] = (sum(p_all) + R.s(rb(35182, 4)) - ap, "hidden-strings")
     elif family == "DT":
         def prod(va, ia):
             return _v10(rb(va, 2)) * _v10(rb(ia, 2))
@@ -205,7 +215,10 @@ def derived_expectations(dev, family, sensors, goodwe_const):
             if name in ids:
                 exp[name] = Approx(pv[i])
         if "ppv" in ids:
-            exp["ppv"] = Approx(sum(pv), 3)
+            present = [x for i, x in enumerate(pv) if f"ppv{i + 1}" in ids]
+            exp["ppv"] = Approx(sum(present), max(1, len(present)))
+            if len(present) < len(pv):
+                alts["ppv"] = (Approx(sum(pv), 3), "hidden-strings")
         for i, (va, ia) in enumerate(((30118, 30121), (30119, 30122), (30120, 30123))):
             if f"pgrid{i + 1}" in ids:
                 exp[f"pgrid{i + 1}"] = Approx(prod(va, ia))
